@@ -52,10 +52,16 @@ def make(name, d, ls, rs=None, params=None, var=1.0, **kw):
     if rs is not None:
         a["rescale"] = rs
     a.update(params or {})
+    via_dim = kw.pop("via_dim", None)
     a.update(kw)
     with warnings.catch_warnings():
         warnings.simplefilter("ignore")
-        return getattr(gs, name)(**a)
+        if via_dim is None:
+            return getattr(gs, name)(**a)
+        a["dim"] = via_dim                      # built in another dimension, then moved with the dim setter
+        m = getattr(gs, name)(**a)
+        m.dim = d
+        return m
 
 
 def resolve(params, ls):
@@ -332,7 +338,8 @@ def corr_scale(m, name, d, params, fn, x, var):
 def chk_ft(case):
     """|S_code(k) - FT[correlation](k)| / S_ref(0) for one class / dim / parameters / wave number"""
     name, d, ls, rs, params, kl = case["cls"], case["dim"], case["len_scale"], case["rescale"], case["params"], case["kl"]
-    m = make(name, d, ls, rs, params, **({"hankel_kw": case["hankel_kw"]} if case.get("hankel_kw") else {}))
+    m = make(name, d, ls, rs, params, **({"hankel_kw": case["hankel_kw"]} if case.get("hankel_kw") else {}),
+             **({"via_dim": case["via_dim"]} if case.get("via_dim") else {}))
     l = m.len_rescaled
     k = kl / l
     rmax = find_rmax(m, d, name)
@@ -455,7 +462,88 @@ def chk_tail_finite(case):
     return bool(ok), dict(density=s, density0=s0)
 
 
-CHECKS = dict(ft=chk_ft, jb_inverse=chk_jb_inverse, int_pdf=chk_int_pdf, cdf_pdf=chk_cdf_pdf, pdf_statement=chk_pdf_statement,
+HISTORIES = ["dim", "deepcopy+dim", "scales", "anis", "opt_arg", "hankel_kw", "hankel_kw+dim", "dim+back"]
+
+
+def spectral_table(m, kgrid, ugrid):
+    """every spectral function of the model on a grid (None where not offered)"""
+    out = {}
+    with np.errstate(all="ignore"), warnings.catch_warnings():
+        warnings.simplefilter("ignore")
+        out["spectral_density"] = np.asarray(m.spectral_density(kgrid), dtype=float)
+        out["spectrum"] = np.asarray(m.spectrum(kgrid), dtype=float)
+        out["spectral_rad_pdf"] = np.asarray(m.spectral_rad_pdf(kgrid), dtype=float)
+        out["ln_spectral_rad_pdf"] = np.asarray(m.ln_spectral_rad_pdf(kgrid), dtype=float)
+        out["has"] = np.array([float(m.has_cdf), float(m.has_ppf)])
+        pdf_f, cdf_f, ppf_f = m.dist_func
+        out["dist_func"] = np.array([float(cdf_f is not None), float(ppf_f is not None)])
+        if m.has_cdf:
+            out["spectral_rad_cdf"] = np.asarray(m.spectral_rad_cdf(kgrid), dtype=float)
+        if m.has_ppf:
+            out["spectral_rad_ppf"] = np.asarray(m.spectral_rad_ppf(ugrid), dtype=float)
+    return out
+
+
+def chk_history(case):
+    """a model brought to its parameters by setters answers every spectral function like a freshly constructed one"""
+    import copy
+    import gstools as gs
+    name, d, d0, ls, rs, var, params, hist = (case["cls"], case["dim"], case["dim0"], case["len_scale"], case["rescale"], case["var"],
+                                              case["params"], case["history"])
+    cls = getattr(gs, name)
+    hk = dict(N=300, h=0.002)
+    anis = [0.5, 0.25][: d - 1]
+    with warnings.catch_warnings():
+        warnings.simplefilter("ignore")
+        final = dict(dim=d, var=var, len_scale=ls, rescale=rs, **params)
+        if hist == "dim":
+            m = cls(**dict(final, dim=d0))
+            m.dim = d
+        elif hist == "dim+back":
+            m = cls(**final)
+            m.dim = d0
+            m.dim = d
+        elif hist == "deepcopy+dim":
+            m = copy.deepcopy(cls(**dict(final, dim=d0)))
+            m.dim = d
+        elif hist == "scales":
+            m = cls(**dict(final, var=1.0, len_scale=3.0 * ls, rescale=0.5 * rs))
+            m.len_scale = ls
+            m.rescale = rs
+            m.var = var
+        elif hist == "anis":
+            final["anis"] = anis
+            m = cls(**dict(final, anis=1.0))
+            m.anis = anis
+        elif hist == "opt_arg":
+            m = cls(dim=d, var=var, len_scale=ls, rescale=rs)
+            for k_, v_ in params.items():
+                setattr(m, k_, v_)
+            m.var = var        # truncated power laws: var = var_raw * var_factor(hurst, lengths), so the variance is (re)set last
+        elif hist == "hankel_kw":
+            final["hankel_kw"] = hk
+            m = cls(**dict(final, hankel_kw=None))
+            m.hankel_kw = hk
+        elif hist == "hankel_kw+dim":
+            final["hankel_kw"] = hk
+            m = cls(**dict(final, dim=d0, hankel_kw=None))
+            m.hankel_kw = hk
+            m.dim = d
+        else:
+            raise ValueError(hist)
+        fresh = cls(**final)
+    l = ls / rs
+    kgrid = np.array(case["kl"], dtype=float) / l
+    ugrid = np.array([0.0, 1e-6, 0.25, 0.5, 0.9, 0.999])
+    a, b = spectral_table(m, kgrid, ugrid), spectral_table(fresh, kgrid, ugrid)
+    bad = {}
+    for fn in sorted(set(a) | set(b)):
+        if fn not in a or fn not in b or not C.close(a[fn], b[fn], rtol=1e-12):
+            bad[fn] = dict(after_setters=[float(x) for x in a.get(fn, [])][:6], fresh=[float(x) for x in b.get(fn, [])][:6])
+    return not bad, bad
+
+
+CHECKS = dict(history=chk_history, ft=chk_ft, jb_inverse=chk_jb_inverse, int_pdf=chk_int_pdf, cdf_pdf=chk_cdf_pdf, pdf_statement=chk_pdf_statement,
               tail_finite=chk_tail_finite)
 
 
@@ -473,6 +561,8 @@ def case_key(case, detail=None):
         return KEY_INTEGRAL_UNDERFLOW  # 1D: the pdf is 0 instead of 2 S(0) for k*l < 2.4e-6 (nu = 50): 3e-6 of the mass
     if k == "tail_finite" and case["cls"] == "TPLExponential" and case["params"]["hurst"] >= 0.5 and case["kl"] >= 1e7:
         return KEY_TPLEXP_TAIL
+    if k == "history":
+        return "history:%s:%s" % (case["cls"], case["history"])
     return "%s:%s:d%d" % (k, case.get("cls", "JBessel"), case["dim"])
 
 
@@ -499,7 +589,8 @@ def run_probe(ctx, case, hist=None):
         ok, detail = False, dict(exception=repr(e))
     trivial = kind in ("pdf_statement",) and False
     ctx.count(None if trivial else (kind, case.get("cls", "JBessel"), case["dim"], json.dumps(case.get("params", {}), sort_keys=True),
-                                      case.get("kl", case.get("rl") if not isinstance(case.get("rl"), list) else None)),
+                                      case.get("history", case.get("dim0")),
+                                      (lambda v: None if isinstance(v, list) else v)(case.get("kl", case.get("rl")))),
               hist=dict(probe=kind, cls=case.get("cls", "JBessel"), dim=case["dim"], **(hist or {})))
     if not ok:
         ctx.violation("probe: %s" % kind, "%s fails for %s dim=%d %s: %s" % (kind, case.get("cls", "JBessel"), case["dim"], case.get("params", {}),
@@ -638,6 +729,31 @@ def probes(ctx, rng):
                          "(Integral with large non-integer nu next to r = 0: exp_int recursion; a C03 matter), e.g. %s" % (ctx.skipped, ctx.skip_example))
     ctx.notes.append("largest |S_code - FT|/S(0) per class on this run (default-path classes: k=0 and k*l>=1 only): %s" % json.dumps(
         {k: float("%.2g" % v) for k, v in worst.items()}))
+    # ---- setter histories: dim a -> b, deepcopy then dim, len_scale / rescale / var, anis, optional arguments, hankel_kw (deterministic)
+    transitions = [(1, 3), (3, 2), (2, 1)] if quick else [(1, 3), (3, 2), (2, 1), (1, 2), (2, 3), (3, 1)]
+    for name in all_names:
+        p3 = param_sets(name, 3, rng, "quick", for_probe=True)          # shape parameters valid in every dimension <= 3
+        for hi, hist in enumerate(HISTORIES):
+            for ti, (d0, d) in enumerate(transitions):
+                if hist not in ("dim", "deepcopy+dim", "hankel_kw+dim", "dim+back") and ti > 0:
+                    continue                                           # the other histories do not involve a second dimension
+                if hist == "anis" and d == 1:
+                    d = 3
+                ls = lu(rng, 0.05, 50)
+                params = resolve(p3[(hi + ti) % len(p3)], ls)
+                if hist == "opt_arg" and not params:
+                    continue
+                run_probe(ctx, dict(kind="history", cls=name, dim=d, dim0=d0, len_scale=ls, rescale=rescales(rng)[(hi + ti) % 2],
+                                    var=lu(rng, 0.1, 10), params=params, history=hist, kl=[0.0, 0.05, 0.3, 1.0, 3.0, 8.0]),
+                          hist=dict(history=hist))
+    # ---- default-path transforms on models that reached their dimension through the dim setter
+    for name in DEFAULT_PATH:
+        for d in (1, 2, 3):
+            ls = lu(rng, 0.05, 50)
+            params = resolve(param_sets(name, 3, rng, "quick", for_probe=True)[0], ls)
+            for kl in (0.0, 1.0, 3.0):
+                run_probe(ctx, dict(kind="ft", cls=name, dim=d, len_scale=ls, rescale=rescales(rng)[d % 2], params=params, kl=kl, tol=T_HANKEL,
+                                    via_dim=d % 3 + 1), hist=dict(path="hankel-default-after-dim-setter"))
     # ---- mpmath cross-check of the panel quadrature itself (rotating subset)
     n_mp = 3 if quick else 12
     cand = [(n, d) for n in ("Gaussian", "Exponential", "Matern", "Integral", "TPLGaussian", "TPLExponential", "HyperSpherical") for d in (1, 2, 3)]
